@@ -420,6 +420,17 @@ fn exec(case: &Case, srv: &mut Option<Server>) -> Line {
             };
             let special = pages.iter().filter_map(|p| p.token.as_ref()).filter(|t| t.contains('-') || t.contains('_')).count();
             let mut tags = vec![format!("names:{}:size{}:limit{}", order, size_band(n), lim_band(limit))];
+            let longest = sorted.iter().map(|x| x.len()).max().unwrap_or(0);
+            if longest > 300 {
+                tags.push(format!(
+                    "names:long-names:{}",
+                    match &o {
+                        ScanObs::Done(_) => "scan-complete".to_string(),
+                        ScanObs::Failed(c, _) => format!("explicit-{}", c),
+                        ScanObs::Runaway(_) => "runaway".to_string(),
+                    }
+                ));
+            }
             for _ in 0..special {
                 tags.push("names:token-with-dash-or-underscore".to_string());
             }
@@ -560,6 +571,70 @@ fn gen_names(rng: &mut Rng, thorough: bool, cases: &mut Vec<Case>) {
                 if !thorough && n > 20 && !matches!(l, None | Some(1) | Some(2) | Some(3) | Some(10001)) && !rng.chance(1, 4) {
                     continue;
                 }
+                cases.push(Case::Names { order: o.to_string(), names: names.clone(), limit: l });
+            }
+        }
+    }
+    // ---- names too long for a token.  The envelope is 55 (ascending) or 56
+    // (descending) bytes plus the name; a token can be issued iff the envelope
+    // is at most 384 bytes, i.e. the name at most 329 / 328 bytes.  One or a
+    // few long names (some still fit, some do not; ASCII and multi-byte) among
+    // short ones, sorted first, in the middle and last; both orders, every
+    // limit: whenever a page ends on a name that does not fit, that request
+    // must fail explicitly — the scan must never just end.
+    let long_name = |first: &str, fill: &str, bytes: usize| -> String {
+        let mut nm = first.to_string();
+        while nm.len() + fill.len() <= bytes {
+            nm.push_str(fill);
+        }
+        while nm.len() < bytes {
+            nm.push('x');
+        }
+        nm
+    };
+    let short: Vec<String> = ["b", "d", "f", "h", "k", "m"].iter().map(|x| x.to_string()).collect();
+    let mut long_colls: Vec<Vec<String>> = vec![];
+    // one long name in the middle, lengths across the bound
+    for bytes in [327usize, 328, 329, 330, 331, 352, 420] {
+        if !thorough && matches!(bytes, 327 | 331) {
+            continue;
+        }
+        let mut v = short.clone();
+        v.push(long_name("e", "e", bytes));
+        long_colls.push(v);
+    }
+    // first / last in String order, just over the bound
+    for first in ["a", "z"] {
+        let mut v = short.clone();
+        v.push(long_name(first, "q", 330));
+        long_colls.push(v);
+    }
+    // multi-byte fills: 2-, 3- and 4-byte characters, below and above the bound
+    for (fill, bytes) in [("é", 328usize), ("é", 330), ("京", 327), ("京", 333), ("🦀", 328), ("🦀", 332)] {
+        if !thorough && matches!((fill, bytes), ("京", 327) | ("🦀", 328)) {
+            continue;
+        }
+        let mut v = short.clone();
+        v.push(long_name("g", fill, bytes));
+        long_colls.push(v);
+    }
+    // several long names: one that fits, two that do not, adjacent and apart
+    {
+        let mut v = short.clone();
+        v.push(long_name("c", "c", 320));
+        v.push(long_name("e", "e", 400));
+        v.push(long_name("ea", "e", 401));
+        v.push(long_name("l", ">?", 329));
+        long_colls.push(v);
+    }
+    // only long names
+    long_colls.push(vec![long_name("a", "a", 329), long_name("b", "b", 330), long_name("c", "c", 328)]);
+    for names in &long_colls {
+        let n = names.len() as u64;
+        for o in orders.iter() {
+            let mut limits: Vec<Option<u64>> = vec![None];
+            limits.extend((1..=n + 1).map(Some));
+            for l in limits {
                 cases.push(Case::Names { order: o.to_string(), names: names.clone(), limit: l });
             }
         }
